@@ -79,7 +79,9 @@ def is_sym(x):
 
 
 def simp(t):
-    return z3.simplify(t)
+    # sort_sums: a canonical argument order for +, so that sums accumulated in a different order (permuted
+    # filters / models) hash-cons to the same term
+    return z3.simplify(t, sort_sums=True)
 
 
 def _arr(ufname, a, b):
@@ -850,6 +852,10 @@ def _log_atom(c, base, t):
         for (b2, t2, v2) in c.log_atoms:
             if b2 == base:
                 c.facts.append(z3.Implies(z3.And(t > 0, t2 > 0), z3.And((t < t2) == (v < v2), (t == t2) == (v == v2))))
+    elif c.ex.opts.get('log_congruence', True):
+        for (b2, t2, v2) in c.log_atoms:       # functionality: equal arguments give equal logarithms
+            if b2 == base:
+                c.facts.append(z3.Implies(t == t2, v == v2))
     c.log_atoms.append((base, t, v))
     return v
 
@@ -972,6 +978,8 @@ def s_abs(x):
 
 
 def s_isnan(x):
+    if isinstance(x, Fraction):
+        return False
     if isinstance(x, SymReal) and _forkmode(x):
         v = _norm(x)
         return (not isinstance(v, SymReal)) and v != v
@@ -983,6 +991,8 @@ def s_isnan(x):
 
 
 def s_isinf(x):
+    if isinstance(x, Fraction):
+        return False
     if isinstance(x, SymReal) and _forkmode(x):
         v = _norm(x)
         return (not isinstance(v, SymReal)) and v in (_INF, -_INF)
@@ -994,6 +1004,8 @@ def s_isinf(x):
 
 
 def s_isfinite(x):
+    if isinstance(x, Fraction):
+        return True
     if isinstance(x, SymReal) and _forkmode(x):
         return isinstance(_norm(x), SymReal)
     if isinstance(x, SymReal):
